@@ -63,7 +63,10 @@ psf_bump_header_allocation (SF_PRIVATE * psf, sf_count_t needed)
 
 	newlen = (needed > psf->header.len) ? 2 * SF_MAX (needed, smallest) : 2 * psf->header.len ;
 
-	if (newlen > 100 * 1024)
+	/* The cap protects the parsers against hostile size fields. What a header writer needs is made of
+	** the caller's own data (strings, custom chunks) : dropping part of it silently would corrupt the file.
+	*/
+	if (newlen > 100 * 1024 && psf->file.mode == SFM_READ)
 	{	psf_log_printf (psf, "Request for header allocation of %D denied.\n", newlen) ;
 		return 1 ;
 		}
